@@ -194,7 +194,7 @@ Definition tabf_eqb (a b : list Z * option (list Z)) : bool :=
 Definition AL (a : N) : Z := nth (N.to_nat a) [192; 384; 96; 192; 576] 192.
 (* which _make_compatible /repo has: false = as it is (no warning for a volatile count inside a concatenated
    sub-program), true = with the repair prepared in round 3 *)
-Definition REPAIRED : bool := false.
+Definition REPAIRED : bool := true.
 
 Fixpoint cobs_of (t : cprog) : cotree :=
   match t with CNode r w ch => CO (rcount r) (is_vol r) w (map cobs_of ch) end.
